@@ -140,24 +140,36 @@ def oracle_file(meta, ops, res):
     if kind == "inline_iter":
         # entries are distinct: what one inline load() yields must not contain an entry twice, and the
         # entries stored when its iteration started come exactly once, newest first
-        es, out, started = [], [], None
+        es, out, started, inst = [], [], None, None
+        ls, idx = None, 0          # what a list iterator over the LIVE cache would do (the shape of C13-F3):
+        explained = True           # used only to decide whether a repetition is that known defect or another one
         for op, r in zip(ops, res):
+            if op[0] == 7:
+                inst = op[1]
             if op[0] == 1:
                 es.append(op[3])
+                if ls is not None and op[1] == inst:
+                    ls.insert(0, op[3])
             elif op[0] == 8:
                 if is_err(r):
                     return ("inline load() raised " + unS(r[1]), {"op": "History.load", "family": "raise"}, "")
                 if started is None:
                     started = list(es)
-                out += r
+                    ls = started[::-1]
+                for x in r:
+                    if not (idx < len(ls) and ls[idx] == x):
+                        explained = False
+                    idx += 1
+                    out.append(x)
         if started is None:
             return None
-        tags = {"op": "History.load", "when": "append_during_iteration" if len(es) > len(started) else "no_append", "clause": "yield"}
+        detail = "stored at start %r, yielded %r" % ([unS(x) for x in started], [unS(x) for x in out])
         if len(set(map(tuple, out))) != len(out):
-            return ("inline load() yielded an entry twice", tags, "stored at start %r, yielded %r" % ([unS(x) for x in started], [unS(x) for x in out]))
+            return ("inline load() yielded an entry twice",
+                    {"op": "History.load", "when": "append_during_iteration" if explained else "other", "clause": "yield-twice"}, detail)
         if meta.get("complete") and [x for x in out if x in started] != started[::-1]:
-            return ("inline load() did not yield the entries stored at its start exactly once, newest first", tags,
-                    "stored at start %r, yielded %r" % ([unS(x) for x in started], [unS(x) for x in out]))
+            return ("inline load() did not yield the entries stored at its start exactly once, newest first",
+                    {"op": "History.load", "when": "other", "clause": "yield-missing"}, detail)
         return None
     if kind == "torn":
         es, offs, n = meta["entries"], meta["offsets"], meta["n"]
@@ -352,6 +364,8 @@ class Ctl:
         self.store_permits = threading.Semaphore(0)
         self.abort = False
         self.snapshot_taken = False
+        self.event_gate = False
+        self.loader_ident = None
 
     def gate(self, name):
         self.arrivals.put(name)
@@ -383,6 +397,7 @@ def make_inner(storage, ctl):
             self.storage = list(storage)
 
         def load_history_strings(self):
+            ctl.loader_ident = threading.get_ident()
             ctl.gate("pre")
             snap = self.storage[::-1]
             ctl.snapshot_taken = True
@@ -398,6 +413,28 @@ def make_inner(storage, ctl):
 
 
 _tl = threading.local()
+_EVENT_GATE = {"ctl": None}
+
+
+class GatedEvent(threading.Event):
+    """threading.Event as seen by prompt_toolkit.history while a replay with event_gate runs: the LOADER
+    thread stops on entering every set() until the harness lets it go on (one permit per statement)."""
+
+    def set(self):
+        c = _EVENT_GATE["ctl"]
+        if c is not None and c.event_gate and not c.abort and threading.get_ident() == c.loader_ident:
+            c.gate("set")
+        super().set()
+
+
+class _ThreadingShim:
+    Thread = threading.Thread
+    Lock = threading.Lock
+    Event = GatedEvent
+
+    def __getattr__(self, name):
+        return getattr(threading, name)
+
 
 
 class GatedLock:
@@ -466,12 +503,17 @@ class Replayer:
         self.loops = [asyncio.new_event_loop() for _ in range(3)]
         self.execs = [LoggingExecutor() for _ in self.loops]
         self.hangs = 0
+        # history.py says `threading.Event()`: give it our Event class (from outside, undone in close())
+        import prompt_toolkit.history as _h
+        self._hist_mod, self._hist_threading = _h, _h.threading
+        _h.threading = _ThreadingShim()
 
     def close(self):
         for l in self.loops:
             l.close()
         for e in self.execs:
             e.shutdown(wait=False)
+        self._hist_mod.threading = self._hist_threading
 
     @staticmethod
     def pump(loop, cond, timeout=2.0):
@@ -487,7 +529,7 @@ class Replayer:
                 return False
             time.sleep(0.0002)
 
-    def replay(self, S0, labels, holds=()):
+    def replay(self, S0, labels, holds=(), event_gate=False):
         """-> (observations, info) ; info: appends with the loader phase they fell in, storage at each consumer start.
         holds: indices of CRead labels whose consumer is stopped right after its locked read until the
         run of loader steps following it is over (those steps get observation None)."""
@@ -500,7 +542,14 @@ class Replayer:
         cons = []
         appender = [None]
         obs = []
-        info = {"appends": [], "starts": [], "hang": False, "race": False, "unfinished": False}
+        info = {"appends": [], "starts": [], "hang": False, "race": False, "unfinished": False,
+                "window_strings": [], "inserted_at_start": [], "finish_in_loop": False}
+        inserted = []            # strings whose append_string has done its insert
+        pending_window = [None]  # the string of an append_string whose insert fell before the snapshot
+        in_loop = [False]        # the loader is stopped inside one of its event loops
+        if event_gate:
+            ctl.event_gate = True
+            _EVENT_GATE["ctl"] = ctl
 
         def observe():
             o = [[S(x) for x in inner.storage], [S(x) for x in th._loaded_strings], bool(th._loaded),
@@ -541,6 +590,7 @@ class Replayer:
                     c = {"loop": loop, "task": task, "out": out, "event": None, "ex": ex}
                     cons.append(c)
                     info["starts"].append(list(inner.storage))
+                    info["inserted_at_start"].append(list(inserted))
                     ok = self.pump(loop, lambda: len(th._string_load_events) > n_ev or task.done())
                     if not ok:
                         raise Hang()
@@ -593,13 +643,36 @@ class Replayer:
                     cond = lambda c=c, ex=ex, n0=n0: c["task"].done() or (ex.reads() > n0 and ex.log[-1] != "in_executor")  # noqa
                     if not self.pump(c["loop"], cond):
                         raise Hang()
+                    if in_loop[0] and c["task"].done():
+                        info["finish_in_loop"] = True
+                elif k == 8:
+                    # one statement of the loader thread (the generator gates + the entry of every event.set())
+                    ctl.permits.release()
+                    t0 = time.time()
+                    got = None
+                    while True:
+                        try:
+                            got = ctl.arrivals.get(timeout=0.005)
+                            break
+                        except queue.Empty:
+                            pass
+                        if not th._load_thread.is_alive():
+                            break
+                        if time.time() - t0 > 5:
+                            raise Hang()
+                    in_loop[0] = (got == "set")
                 elif k == 4:
                     info["appends"].append(when())
+                    pending_window[0] = unS(lab[1]) if info["appends"][-1] == "before_snapshot" else None
+                    inserted.append(unS(lab[1]))
                     t = threading.Thread(target=th.append_string, args=(unS(lab[1]),), daemon=True)
                     appender[0] = t
                     t.start()
                     ctl.store_arrivals.get(timeout=5)
                 elif k == 5:
+                    if pending_window[0] is not None and not ctl.snapshot_taken:
+                        info["window_strings"].append(pending_window[0])     # inserted AND stored before the snapshot
+                    pending_window[0] = None
                     ctl.store_permits.release()
                     appender[0].join(5)
                     if appender[0].is_alive():
@@ -612,11 +685,20 @@ class Replayer:
             info["hang"] = True
             obs.append([-98])
         finally:
+            _EVENT_GATE["ctl"] = None
             if held[0] is not None:
                 held[0][1]["resume"].set()
             for c in cons:
                 if c["ex"].pause is not None:
                     c["ex"].pause = None
+            if appender[0] is not None and appender[0].is_alive():
+                # an append_string is still between its two halves: let its store happen NOW, while the loader
+                # is still stopped, so that it is decided (not raced) whether it falls before the snapshot
+                if pending_window[0] is not None and not ctl.snapshot_taken:
+                    info["window_strings"].append(pending_window[0])
+                pending_window[0] = None
+                ctl.store_permits.release()
+                appender[0].join(5)
             ctl.release_all()
             if th._load_thread is not None:
                 th._load_thread.join(5)
@@ -640,28 +722,41 @@ class Replayer:
 
 
 def oracle_threaded(S0, labels, obs, info):
-    """-> None or (clause, tags, detail).  Strings are distinct by construction."""
-    if info["hang"]:
+    """-> None or (clause, tags, detail).  Strings are distinct by construction.
+    Tags are specific to the consumer / clause that fails, so that a known-finding matcher covers
+    exactly its own symptom:
+      when = window_append_reread   every duplicated entry is a string that append_string inserted AND
+                                    stored between the first load() and the loader's snapshot (C13-F2)
+             consumer_finished_inside_event_loop   a load() finished while the loader was inside one of
+                                    its `for event in ...: event.set()` loops (C13-F4)
+             otherwise the phase of the first concurrent append / no_concurrent_append"""
+    if info["hang"] and not info.get("finish_in_loop"):
         return ("replay hung (a wait timed out)", {"op": "ThreadedHistory", "family": "hang"}, "")
     concurrent = [w for w in info["appends"] if w not in ("before_load", "quiescent")]
     w = concurrent[0] if concurrent else "no_concurrent_append"
     op = "ThreadedHistory.append_string" if concurrent else "ThreadedHistory.load"
-    if info["unfinished"]:
-        return ("a load() did not finish although the loader thread had finished", {"op": op, "when": w, "clause": "finish"}, "")
+    if info["unfinished"] or info["hang"]:
+        wf = "consumer_finished_inside_event_loop" if info.get("finish_in_loop") else w
+        return ("a load() did not finish although the loader thread had finished" if info["unfinished"] else "replay hung (a wait timed out)",
+                {"op": "ThreadedHistory.load" if info.get("finish_in_loop") else op, "when": wf, "clause": "finish"}, "")
+    window = [tuple(S(x)) for x in info.get("window_strings", [])]
     last = obs[-1]
-    storage_steps = [o[0] for o in obs]
     for ci, (out, fin) in enumerate(last[3]):
         if fin == 99:
             return ("load() raised", {"op": op, "when": w, "clause": "raise"}, "")
-        if len(set(map(tuple, out))) != len(out):
-            return ("load() yielded an entry twice", {"op": op, "when": w, "clause": "yield"},
-                    "consumer %d yielded %r" % (ci, [unS(x) for x in out]))
         start = [S(x) for x in info["starts"][ci]]
+        inserted_before = [tuple(S(x)) for x in info.get("inserted_at_start", [[]] * (ci + 1))[ci]]
+        touts = list(map(tuple, out))
+        dups = sorted(set(x for x in touts if touts.count(x) > 1))
+        if dups:
+            reread = all(x in window and x in inserted_before and touts.count(x) == 2 for x in dups)
+            return ("load() yielded an entry twice", {"op": op, "when": "window_append_reread" if reread else w, "clause": "yield-twice"},
+                    "consumer %d yielded %r" % (ci, [unS(x) for x in out]))
         if fin == 1:
             restricted = [x for x in out if x in start]
             if restricted != start[::-1]:
                 return ("load() did not yield the entries present at its start exactly once, newest first",
-                        {"op": op, "when": w, "clause": "yield"}, "consumer %d yielded %r, storage at start %r" % (ci, [unS(x) for x in out], [unS(x) for x in start]))
+                        {"op": op, "when": w, "clause": "yield-missing"}, "consumer %d yielded %r, storage at start %r" % (ci, [unS(x) for x in out], [unS(x) for x in start]))
         if not concurrent:
             # find the storage at the step where this consumer finished (or the final one)
             inline = last[0][::-1]
@@ -670,21 +765,27 @@ def oracle_threaded(S0, labels, obs, info):
                     inline = o[0][::-1]
                     break
             if fin == 1 and out != inline:
-                return ("threaded load() != inline load()", {"op": op, "when": w, "clause": "yield"},
+                return ("threaded load() != inline load()", {"op": op, "when": w, "clause": "yield-inline"},
                         "consumer %d yielded %r, inline %r" % (ci, [unS(x) for x in out], [unS(x) for x in inline]))
             if fin == 0 and out != inline[:len(out)]:
-                return ("threaded load() yielded a non-prefix of the inline sequence", {"op": op, "when": w, "clause": "yield"},
+                return ("threaded load() yielded a non-prefix of the inline sequence", {"op": op, "when": w, "clause": "yield-inline"},
                         "consumer %d yielded %r, inline %r" % (ci, [unS(x) for x in out], [unS(x) for x in inline]))
     # after the replay the loader was let run to the end and every append completed
     if info["final_loaded"] and (info["final_cache"] != info["final_storage"][::-1] or info["final_get_strings"] != info["final_storage"]):
+        cache = list(map(tuple, info["final_cache"]))
+        once = list(cache)
+        for x in window:                      # drop ONE copy of every window string that is there twice
+            if once.count(x) == 2:
+                once.remove(x)
+        reread = bool(window) and once == list(map(tuple, info["final_storage"][::-1])) and info["final_get_strings"] == info["final_cache"][::-1]
         return ("after loading completed the cache is not the storage with every entry exactly once",
-                {"op": op, "when": w, "clause": "cache"},
+                {"op": op, "when": "window_append_reread" if reread else w, "clause": "cache-twice" if reread else "cache"},
                 "get_strings() = %r, storage = %r" % ([unS(x) for x in info["final_get_strings"]], [unS(x) for x in info["final_storage"]]))
     return None
 
 
 def label_name(l):
-    return {1: "L", 2: "CStart", 3: "CRead%d" % (l[1] if len(l) > 1 and isinstance(l[1], int) else 0), 4: "AIns", 5: "ASto", 6: "Append"}.get(l[0], "?")
+    return {1: "L", 2: "CStart", 3: "CRead%d" % (l[1] if len(l) > 1 and isinstance(l[1], int) else 0), 4: "AIns", 5: "ASto", 6: "Append", 8: "l"}.get(l[0], "?")
 
 
 def gen_schedules(chk):
@@ -731,6 +832,37 @@ def gen_schedules(chk):
     # the hand schedules of Props/C13.v: the repaired C13-F1 witness and the window of C13-F2
     scheds.insert(0, ([a, b, c], [[2], [1], [1], [1], [3, 0], [4, S("NEW")], [5, S("NEW")], [1], [1], [3, 0]]))
     scheds.insert(1, ([a, b], [[2], [4, S("NEW")], [5, S("NEW")], [2], [1], [1], [1], [1], [1], [3, 1]]))
+    return scheds, dist
+
+
+def gen_event_schedules(chk):
+    """Schedules at the granularity of the loader's single event.set() calls (model kinds 8/9)."""
+    rng = chk.rng
+    thorough = chk.tier == "thorough"
+    a, b = S("a"), S("b")
+    params = [([a], 2, 13), ([a, b], 2, 12), ([], 2, 9)] + ([([a], 3, 12)] if thorough else [])
+    res = run_model("c13", [[8, s0, maxc, fuel] for s0, maxc, fuel in params], shards=1)
+    scheds, dist = [], {}
+    per = 900 if thorough else 60
+    for (s0, maxc, fuel), r in zip(params, res):
+        if not isinstance(r, list) or r == [-999] or r == ["MODEL-NO-OUTPUT"]:
+            chk.note("model event-schedule enumerator failed for %r" % ([s0, maxc, fuel],))
+            continue
+        # only schedules in which some load() call runs while the loader is inside a loop are new
+        pick = r if len(r) <= per else rng.sample(r, per)
+        dist["eenum S0=%d maxc=%d depth=%d" % (len(s0), maxc, fuel)] = {"enumerated": len(r), "replayed": len(pick)}
+        scheds += [(s0, sch) for sch in pick if sch]
+    walks = [[9, [S(x) for x in rng.sample(["a", "b", "c"], rng.randint(0, 3))], rng.randint(2, 3),
+              [rng.randint(0, 11) for _ in range(rng.randint(8, 26))]] for _ in range(1200 if thorough else 60)]
+    wres = run_model("c13", walks)
+    nw = 0
+    for c, r in zip(walks, wres):
+        if isinstance(r, list) and r and r != [-999]:
+            scheds.append((c[1], r))
+            nw += 1
+    dist["ewalk"] = {"replayed": nw}
+    # Props/C13.v skip_sched (+ one more loader statement): the C13-F4 schedule
+    scheds.insert(0, ([a], [[2], [2], [8], [8], [8], [8], [3, 1], [8], [3, 0], [8], [8]]))
     return scheds, dist
 
 
@@ -900,6 +1032,39 @@ def _main(chk, pr, runner, rep):
                 tags, {"case": sx_norm(case), "observed_last": sx_norm(obs_seen[-1]), "clause": clause, "holds": holds,
                        "how": "as kind 2, but ThreadedHistory._lock is a GatedLock: the consumer's executor job is stopped when it leaves the lock region; harness/c13.py Replayer.replay(holds=...)"})
     dist["schedules_with_held_reads"] = nheld
+
+    # ---- kind 7: the loader stopped on entering every single event.set() of its loops
+    ev_scheds, evdist = gen_event_schedules(chk)
+    dist["event_loop_schedules"] = evdist
+    f4_cases = set()
+    nev = nin = 0
+    for s0, labels in ev_scheds:
+        if rep.hangs >= 12:
+            chk.note("event-loop replay stopped after %d hung schedules" % rep.hangs)
+            break
+        obs, info = with_watchdog(lambda: rep.replay(s0, labels, event_gate=True), 60)
+        if info["race"]:
+            continue
+        case = [7, s0, labels]
+        i = len(cases)
+        cases.append(case)
+        impl_results.append(obs)
+        metas.append({"kind": "threaded", "gen": "event_loop_schedule"})
+        chk.count_case(case, len(labels) >= 3)
+        nev += 1
+        if info["finish_in_loop"]:
+            f4_cases.add(i)
+            nin += 1
+        bad = oracle_threaded(s0, labels, [o for o in obs if len(o) > 3] or obs, info)
+        if bad:
+            oracle_bad.add(i)
+            clause, tags, detail = bad
+            chk.violation("oracle", clause + " (" + detail + "; S0=%r schedule=%s; l = one statement of the loader thread, which is stopped on entering every event.set())" % (
+                [unS(x) for x in s0], " ".join(label_name(l) for l in labels)),
+                tags, {"case": sx_norm(case), "observed_last": sx_norm(obs[-1]), "clause": clause,
+                       "how": "as kind 2 with prompt_toolkit.history's threading.Event replaced by a gated subclass; harness/c13.py Replayer.replay(event_gate=True)"})
+    dist["event_loop_schedules_replayed"] = nev
+    dist["event_loop_schedules_with_a_finish_inside_a_loop"] = nin
     dist["schedule_appends_when"] = whens
     dist["schedules_skipped_first_read_race"] = races
     if races > max(5, len(scheds) // 10):
@@ -924,6 +1089,11 @@ def _main(chk, pr, runner, rep):
             return {"op": "utf8_decode"}
         if c[0] == 6:
             return {"op": "ThreadedHistory.held_read"}
+        if c[0] == 7:
+            i = case_index.get(id(c))
+            if i in f4_cases:
+                return {"op": "ThreadedHistory.load", "when": "consumer_finished_inside_event_loop", "clause": "finish"}
+            return {"op": "ThreadedHistory.event_loop"}
         for j, (x, y) in enumerate(zip(a, m if isinstance(m, list) else [])):
             if x != y:
                 return {"op": "ThreadedHistory." + label_name(c[2][j]), "step": j}
@@ -936,6 +1106,7 @@ def _main(chk, pr, runner, rep):
             return "bytes=%r impl=%r model=%r" % (c[1], a, m)
         return "S0=%r schedule=%s impl_last=%r model_last=%r" % ([unS(x) for x in c[1]], " ".join(label_name(l) for l in c[2]), a[-1:], m[-1:] if isinstance(m, list) else m)
 
+    case_index = {id(c): i for i, c in enumerate(cases)}
     model_results, nbad = correspondence(chk, "c13", cases, impl_results, tagger, describe=describe,
                                          oracle_failed=lambda i: i in oracle_bad)
 
@@ -969,7 +1140,7 @@ def _main(chk, pr, runner, rep):
         "a crash during a write is DEFINED as truncation of the file's byte sequence; OS-level durability (no fsync, O_APPEND atomicity across processes) is outside the model",
         "CPython's UTF-8 decoder with errors='replace' is C code outside /repo: the Coq decoder (Model/C13_Utf8.v utf8_dec) is a model of it, tied by the kind-5 correspondence and by every torn-file case; the theorems hold for that model",
         "the timestamp is any byte string without line feed (datetime.now() formatting is outside the model)",
-        "ThreadedHistory: lock regions and single unlocked statements are atomic steps; threading.Lock/Event, run_in_executor and list operations under the GIL are trusted; the model lets a consumer read at any time (superset of real schedules)",
+        "ThreadedHistory: lock regions are atomic steps; the loader's unlocked `for event in ...: event.set()` loops are one step in Model/C13_Threaded.v (kinds 2/6) and single set() calls in Model/C13_ThreadedEv.v (kind 7; the loop runs over a COPY of the list since commit 8f41d2f); a consumer unregisters atomically with its last read; threading.Lock/Event, run_in_executor and list operations under the GIL are trusted; the model lets a consumer read at any time (superset of real schedules)",
         "load() and append_string both run on the event-loop thread: schedules in which a load() starts between the two halves of an append_string are not forced (and are outside the theorem's hypothesis ok_sched)",
     ]
     return chk.finish()
@@ -1021,6 +1192,23 @@ def replay(data):
             rc = 1 if bad else 0
             m = run_model("c13", [case])[0]
             print("model agrees" if m == sx_norm(obs) else "model differs")
+        finally:
+            rep.close()
+    elif case[0] == 7:
+        rep = Replayer()
+        try:
+            obs, info = rep.replay(case[1], case[2], event_gate=True)
+            print("S0=%r schedule=%s   (l = one loader statement; the loader stops on entering every event.set())" % (
+                [unS(x) for x in case[1]], " ".join(label_name(l) for l in case[2])))
+            for l, o in zip(case[2], obs):
+                if len(o) > 3:
+                    print("  %-7s cache=%r loaded=%r yielded=%r events=%r" % (label_name(l), [unS(x) for x in o[1]], o[2], [[unS(x) for x in c[0]] for c in o[3]], o[4]))
+            print("after the schedule the loader was let run to its end: unfinished load() left = %r" % info["unfinished"])
+            bad = oracle_threaded(case[1], case[2], [o for o in obs if len(o) > 3] or obs, info)
+            print("ORACLE FAILS: %s (%s) tags=%r" % (bad[0], bad[2], bad[1]) if bad else "oracle ok")
+            rc = 1 if bad else 0
+            m = run_model("c13", [case])[0]
+            print("model (patched code) agrees" if m == sx_norm(obs) else "model (patched code) differs")
         finally:
             rep.close()
     elif case[0] == 6:
